@@ -266,9 +266,79 @@ def judgeLogical (toks : List String) (out : List String) : String :=
         | some (e, o) => s!"bad not-kleene expected={e} got={o}"
         | none => "ok"
 
+/-! ### comparisons through the typechecker (`lcmp`) -/
+
+def parseITy (s : String) : Option ITy :=
+  if s == "I" then some .i else if s == "N" then some .n else if s == "NI" then some .ni else none
+
+def parseCmpOp (hex : String) : Option CmpOp :=
+  let n := parseName hex
+  if n == nmLt then some .lt else if n == nmLe then some .le else if n == nmEq then some .eq
+  else if n == nmNe then some .ne else if n == nmGe then some .ge else if n == nmGt then some .gt else none
+
+/-- operand: its static type, its `physical.Expression`, its wire form, and its value under the record -/
+def operand (t0 t1 : ITy) (v0 v1 : Value) (s : String) : Option (ITy × PExpr × List String × Value) :=
+  if s == "c0" then some (t0, .var t0.toTy 0, ["V", encodeTy t0.toTy, "0"], v0)
+  else if s == "c1" then some (t1, .var t1.toTy 1, ["V", encodeTy t1.toTy, "1"], v1)
+  else if s == "kn" then some (.n, .const .null .null, ["C", "Null", "n"], .null)
+  else if s.startsWith "k" then
+    let v := Value.int (parseInt! (s.drop 1).toString)
+    some (.i, .const .int v, ["C", "Int", encodeValue v], v)
+  else none
+
+structure CmpLine where
+  op : CmpOp
+  lt : ITy
+  rt : ITy
+  call : BTy → PExpr
+  wire : BTy → List String
+  lv : Value
+  rv : Value
+  vals : List Value
+
+def parseCmpLine (toks : List String) : Option CmpLine :=
+  match toks with
+  | oph :: t0 :: t1 :: a :: b :: rest => do
+    let op ← parseCmpOp oph
+    let t0 ← parseITy t0
+    let t1 ← parseITy t1
+    let (vals, _) ← parseValues 2 rest
+    match vals with
+    | [v0, v1] =>
+      let (lt, lp, lw, lv) ← operand t0 t1 v0 v1 a
+      let (rt, rp, rw, rv) ← operand t0 t1 v0 v1 b
+      pure { op := op, lt := lt, rt := rt, lv := lv, rv := rv, vals := vals
+             call := fun bt => .call bt.toTy (tableDesc op.name 0 op.fn) [lp, rp]
+             wire := fun bt => ["F", encodeTy bt.toTy, oph, "0", "2"] ++ lw ++ rw }
+    | _ => none
+  | _ => none
+
+def modelCmp (toks : List String) : String :=
+  match parseCmpLine toks with
+  | none => "bad-op"
+  | some c =>
+    match typecheckCmp c.op c.lt c.rt with
+    | none => "typecheck-panic"
+    | some bt =>
+      String.intercalate " " (c.wire bt) ++ " | " ++ resStr (eval [c.vals] (materialize [[0, 1]] (c.call bt)))
+
+/-- oracle: NULL when an operand is NULL, otherwise the comparison of the two integers -/
+def judgeCmp (toks : List String) (out : List String) : String :=
+  match parseCmpLine toks with
+  | none => "ok"
+  | some c =>
+    if out == ["typecheck-panic"] then "ok"
+    else
+      let result := String.intercalate " " ((out.dropWhile (· != "|")).drop 1)
+      let want := match c.lv, c.rv with
+        | .int a, .int b => if c.op.holds a b then "b1" else "b0"
+        | _, _ => "n"
+      if result == want then "ok" else s!"bad comparison expected={want} got={result}"
+
 def model (toks : List String) : String :=
   match toks with
   | "ltreeall" :: rest => modelLogical rest
+  | "lcmp" :: rest => modelCmp rest
   | "treeall" :: k :: tree =>
     let k := k.toNat!
     match parseTree tree with
@@ -367,6 +437,7 @@ def judge (toks : List String) (out : List String) : String :=
   let outS := String.intercalate " " out
   match toks with
   | "ltreeall" :: rest => judgeLogical rest out
+  | "lcmp" :: rest => judgeCmp rest out
   | "treeall" :: k :: tree =>
     let k := k.toNat!
     let names := List.range k
